@@ -43,10 +43,10 @@ var c03Kinds = []string{"send_to_fx", "bridge_call", "bridge_token", "send_to_ex
 // fields of each claim type that influence what is executed (the statement's list)
 var c03Fields = map[string][]string{
 	"send_to_fx":         {"token", "amount", "sender", "receiver", "target", "height"},
-	"bridge_call":        {"token", "amount", "sender", "refund", "to", "data", "memo", "value", "tx_origin", "height", "tokens_len"},
-	"bridge_token":       {"token", "name", "symbol", "decimals", "channel_ibc", "height", "resplit_name_symbol"},
+	"bridge_call":        {"token", "amount", "sender", "refund", "to", "data", "memo", "value", "tx_origin", "height", "tokens_len", "migrate_data_value", "migrate_value_memo"},
+	"bridge_token":       {"token", "name", "symbol", "decimals", "channel_ibc", "height", "resplit_name_symbol", "migrate_decimals_channel"},
 	"send_to_external":   {"token", "batch_nonce", "height"},
-	"oracle_set_updated": {"set_nonce", "member_power", "member_addr", "members_len", "height"},
+	"oracle_set_updated": {"set_nonce", "member_power", "member_addr", "members_len", "height", "migrate_height_setnonce"},
 	"bridge_call_result": {"call_nonce", "success", "cause", "tx_origin", "height"},
 }
 
@@ -252,7 +252,68 @@ func differentHex(g *claimGen, old string) string {
 }
 
 // mutate returns a copy of c differing exactly in `field` (nil when not applicable).
+// migrate builds a pair of claims in which characters move across the boundary of two adjacent
+// variable-length fields whose alphabets overlap (hex call data / decimal value / hex memo, two
+// adjacent counters, decimals / hex channel): c is adjusted in place, the neighbour is returned.
+// Both stay valid; they are told apart only by the separator between the two fields.
+func (g *claimGen) migrate(c crosschaintypes.ExternalClaim, field string) crosschaintypes.ExternalClaim {
+	dec := func(s string) (sdkmath.Int, bool) { return sdkmath.NewIntFromString(s) }
+	switch m := c.(type) {
+	case *crosschaintypes.MsgBridgeCallClaim:
+		if m.Value.IsNil() || m.Value.IsNegative() {
+			m.Value = sdkmath.ZeroInt()
+		}
+		switch field {
+		case "migrate_data_value": // (D+"10", V) vs (D, "10"+V)
+			m.Data += "10"
+			v := cloneClaim(m).(*crosschaintypes.MsgBridgeCallClaim)
+			v.Data = m.Data[:len(m.Data)-2]
+			nv, ok := dec("10" + m.Value.String())
+			if !ok {
+				return nil
+			}
+			v.Value = nv
+			return v
+		case "migrate_value_memo": // (V+"10", M) vs (V, "10"+M)
+			if !m.Value.IsPositive() {
+				m.Value = sdkmath.NewInt(7)
+			}
+			v := cloneClaim(m).(*crosschaintypes.MsgBridgeCallClaim)
+			nv, ok := dec(m.Value.String() + "10")
+			if !ok {
+				return nil
+			}
+			m.Value = nv
+			v.Memo = "10" + m.Memo
+			return v
+		}
+	case *crosschaintypes.MsgOracleSetUpdatedClaim:
+		if field == "migrate_height_setnonce" { // (H, "1"+S) vs (H+"1", S)
+			h, sn := 1+uint64(g.rng.IntN(1_000_000)), 1+uint64(g.rng.IntN(1_000_000))
+			var a, b uint64
+			fmt.Sscan("1"+fmt.Sprint(sn), &a)
+			fmt.Sscan(fmt.Sprint(h)+"1", &b)
+			m.BlockHeight, m.OracleSetNonce = h, a
+			v := cloneClaim(m).(*crosschaintypes.MsgOracleSetUpdatedClaim)
+			v.BlockHeight, v.OracleSetNonce = b, sn
+			return v
+		}
+	case *crosschaintypes.MsgBridgeTokenClaim:
+		if field == "migrate_decimals_channel" { // (1, "80"+X) vs (180, X)
+			m.Decimals = 1
+			m.ChannelIbc = "80" + m.ChannelIbc
+			v := cloneClaim(m).(*crosschaintypes.MsgBridgeTokenClaim)
+			v.Decimals, v.ChannelIbc = 180, m.ChannelIbc[2:]
+			return v
+		}
+	}
+	return nil
+}
+
 func (g *claimGen) mutate(c crosschaintypes.ExternalClaim, field string) crosschaintypes.ExternalClaim {
+	if strings.HasPrefix(field, "migrate_") {
+		return g.migrate(c, field)
+	}
 	v := cloneClaim(c)
 	bump := func(x uint64) uint64 {
 		if x == ^uint64(0) {
@@ -410,8 +471,11 @@ func c03PartA(spec c03Spec, res *core.CaseResult) {
 		}
 		f := fields[i%len(fields)]
 		v := g.mutate(base, f)
-		if v == nil || v.ValidateBasic() != nil {
+		if v == nil || v.ValidateBasic() != nil || base.ValidateBasic() != nil {
 			continue
+		}
+		if strings.HasPrefix(f, "migrate_") {
+			res.Count("boundary_migration_pairs", 1)
 		}
 		valid++
 		res.Count("hash_pairs", 1)
